@@ -655,6 +655,12 @@ let run_life kvs _ =
   let (progs, sched, groups, bound) : ((int * lcall list) list) * lact list * (int * int) list * int =
     match scen with
     | "write-then-cancel" -> ([0, [wr 1; wr 2]], sect 0 @ [Cancel 1; TL] @ sect 0, [(0, 1); (0, 1)], 0)
+    | "emptyfin-read-then-cancel" ->
+      ([0, [rd 1; rd 1; rd 1; rd 1; rd 1; rd 2; rd 2]], sect 0 @ sect 0 @ sect 0 @ sect 0 @ sect 0 @ [Cancel 1; TL] @ sect 0 @ sect 0, [(0, 5); (0, 2)], 0)
+    | "closeread-twice-closenow" | "closeread-derived-contexts-closenow" ->
+      ([(0, [LCloseRead (nat_of_int 9, nat_of_int 100); LCloseRead (nat_of_int 9, nat_of_int 100); LCloseNow]); (100, [])], [RunCall 0; RunCall 0; RunCall 100; RunCall 0; TL; RunCall 100; RunCall 0], [], 0)
+    | "closeread-twice-data" ->
+      ([(0, [LCloseRead (nat_of_int 9, nat_of_int 100); LCloseRead (nat_of_int 9, nat_of_int 100)]); (100, [])], [RunCall 0; RunCall 0; RunCall 100; IOok 100; RunCall 100; TL], [], 0)
     | "read-then-cancel" -> ([0, [rd 1; rd 1; rd 2; rd 2]], sect 0 @ sect 0 @ [Cancel 1; TL] @ sect 0 @ sect 0, [(0, 2); (0, 2)], 0)
     | "fragread-then-cancel" | "compressed-read-then-cancel" ->
       (* several frames (sections) under the same context, a Ping answered in between (a write section under a child context) *)
